@@ -23,9 +23,15 @@ func (v *hasSideEffectVisitor) Visit(node ast.Node) (w ast.Visitor) {
 	}
 	switch n := node.(type) {
 	case *ast.CallExpr:
-		if _, isSig := v.info.TypeOf(n.Fun).(*types.Signature); isSig { // skip conversions
-			v.hasSideEffect = true
-			return nil
+		if tv, ok := v.info.Types[n.Fun]; ok && tv.IsType() {
+			break // a conversion, not a call
+		}
+		if t := v.info.TypeOf(n.Fun); t != nil {
+			// The function operand may be of a named function type (type F func(); var f F; f()).
+			if _, isSig := t.Underlying().(*types.Signature); isSig {
+				v.hasSideEffect = true
+				return nil
+			}
 		}
 	case *ast.UnaryExpr:
 		if n.Op == token.ARROW {
